@@ -187,10 +187,16 @@ def run(ctx):
     ctx.check("C14-R3", mr, "add/mask -> +, else -", ok,
               "residual must be data + model when adding or masking and "
               "data - model otherwise", node=ifs[0] if ifs else mr.node)
-    acc = [s for s in walk_no_nested(mm.node) if isinstance(s, ast.AugAssign)
-           and isinstance(s.op, ast.Add) and
-           norm(s.target).replace(" ", "") == "m[x,y]" and
-           norm(s.value) == "model"]
+    mrets = [s for s in walk_no_nested(mm.node) if isinstance(s, ast.Return)
+             and isinstance(s.value, ast.Name)]
+    if not mrets or len({s.value.id for s in mrets}) != 1:
+        raise AnalysisError("C14-R3: make_model does not return one named "
+                            "array")
+    MARR = mrets[0].value.id
+    from ..core import as_update
+    acc = [s for s in walk_no_nested(mm.node)
+           if isinstance(s, (ast.AugAssign, ast.Assign)) and
+           as_update(s) == ("%s[x, y]" % MARR, ast.Add, "model")]
     ctx.check("C14-R3", mm, "m[x, y] += model", len(acc) == 1,
               "models of different sources must add up", node=mm.node)
     # ---------------------------------------------------------------- R4
@@ -204,7 +210,7 @@ def run(ctx):
         raise AnalysisError("C14: source loop not found")
     body = loop[0].body
     first_use = min([i for i, s in enumerate(body) if any(
-        isinstance(x, ast.Subscript) and norm(x.value) in ("m", "np.mgrid")
+        isinstance(x, ast.Subscript) and norm(x.value) in (MARR, "np.mgrid")
         for x in ast.walk(s))] or [len(body)])
     skipping = [s for s in body[:first_use] if isinstance(s, ast.If) and
                 any(isinstance(b, ast.Continue) for b in s.body) and
@@ -305,7 +311,8 @@ def run(ctx):
               "masked pixels are those with model >= frac*peak_flux (frac "
               "given) or >= sigma*local_rms", node=wh[0] if wh else mm.node)
     st = [s for s in walk_no_nested(mm.node) if isinstance(s, ast.Assign) and
-          norm(s.targets[0]).replace(" ", "") == "m[x[indices],y[indices]]"]
+          norm(s.targets[0]).replace(" ", "") ==
+          "%s[x[indices],y[indices]]" % MARR]
     ctx.check("C14-R5", mm, "NaN store on the selected pixels",
               len(st) == 1 and norm(st[0].value) in ("np.nan", "numpy.nan"),
               "mask mode must blank m[x[indices], y[indices]]",
